@@ -100,9 +100,10 @@ Definition C07_commit_shows_exact_state_full : Prop :=
     fst (step cfg s (OCommit close)) = Ret RNone /\ par_fresh (snd (step cfg s (OCommit close))) = true.
 
 (* PARTIAL: it holds when commit's bookkeeping reaches the instances concerned (commit_reaches, Model/Txn.v):
-   every reachable parent-side instance that caches a value of a row the transaction changed has its id in
-   the transaction's cache at this moment (or in _deletedCache), is still handed out by the parent's cache,
-   is not flagged expired; and no instance commit visits has its flag clear and an attribute missing. *)
+   every reachable parent-side instance that caches a value of a row the transaction changed (i) has its id
+   in the transaction's cache at this moment or in _deletedCache [open finding commit_forgets_uncached_row]
+   and (ii) is still handed out by the parent's cache [open finding commit_misses_purged_parent_instance];
+   (iii) it is not flagged expired while caching something -- a state no operation produces any more. *)
 Theorem C07_commit_shows_exact_state_partial :
   forall (cfg : config) (ops : list op) (close : bool),
     let s := run cfg init ops in
@@ -141,9 +142,9 @@ Definition C07_rollback_erases_full : Prop :=
     fst (step cfg s ORollback) = Ret RNone /\
     forall o, reachable_obj s' Txn o = true -> i_obsolete (get_inst s' Txn o) = false -> no_vals (get_inst s' Txn o) = true.
 
-(* PARTIAL: under rollback_reaches (every reachable transaction-side instance that caches something is still
-   handed out by the transaction's cache, not flagged expired, has all its attributes; expire() raises on none
-   of those visited). *)
+(* PARTIAL: under rollback_reaches: every reachable undestroyed transaction-side instance that caches something
+   is still handed out by the transaction's cache [open finding rollback_misses_purged_instance] (and is not
+   flagged expired while caching something -- a state no operation produces any more). *)
 Theorem C07_rollback_erases_partial :
   forall (cfg : config) (ops : list op),
     let s := run cfg init ops in
@@ -241,18 +242,20 @@ Example C07_flagged_instance_fixed :
   tbl_lookup (committed s) 1 = Some [v 7; v 1] /\ par_fresh s = true /\ fst (step cfgF s (ORead 0 0)) = Ret (RVal (v 7)).
 Proof. vm_compute. repeat split. Qed.
 
-(* cache=False: commit raises AttributeError after the database commit -- the parent's instance of a row
-   deleted in an earlier commit has its flag clear (a read raised not-found) and no attributes, and
-   _deletedCache still lists its id -- and the instance of the row deleted in this transaction, which comes
-   later in the walk, keeps its cached values *)
-Definition wit_commit_raises : list op :=
+(* (fixed in the tree, commit 1aded16: expire() on an instance whose reload raised not-found -- flag clear,
+   attributes gone -- used to raise AttributeError out of commit() after the database commit and left the
+   rest of the walk undone; now commit returns and the instance of the row deleted in this transaction is
+   expired too) *)
+Definition hist_attributeless : list op :=
   [OCreate Par false (v 1) (v 1); OCreate Par false (v 2) (v 2); OGet Txn false 1; ODestroy 2; OCommit false;
    ORead 0 0; OGet Txn false 2; ODestroy 3].
-Example C07_commit_raises :
-  let s0 := run cfgF init wit_commit_raises in
-  par_fresh s0 = true /\ fst (step cfgF s0 (OCommit false)) = Raise EAttribute /\
+Example C07_commit_after_not_found_fixed :
+  let s0 := run cfgF init hist_attributeless in
+  par_fresh s0 = true /\ i_expired (get_inst s0 Par 0) = false /\ i_vals (get_inst s0 Par 0) = [None; None] /\
+  commit_reaches cfgF s0 = true /\ fst (step cfgF s0 (OCommit false)) = Ret RNone /\
   let s := snd (step cfgF s0 (OCommit false)) in
-  tbl_lookup (committed s) 2 = None /\ i_vals (get_inst s Par 1) = [Some (v 2); Some (v 2)] /\ par_fresh s = false.
+  tbl_lookup (committed s) 2 = None /\ i_vals (get_inst s Par 1) = [None; None] /\ par_fresh s = true /\
+  fst (step cfgF s (ORead 1 0)) = Raise ENotFound.
 Proof. vm_compute. repeat split. Qed.
 
 (* rollback: the instance was purged from the transaction's cache by the first rollback and reloaded by a
